@@ -479,7 +479,12 @@ impl<C: Autocomplete + Help> SessModel<C> {
                         } else {
                             stats.hit("history_not_recorded");
                         }
-                        if ea != want {
+                        // a line of blanks only: "empty lines are not recorded" can be read either way (it has no
+                        // token, but it is not of length zero): recorded like any line, or ignored like an empty one
+                        let blank_only = !btext.is_empty() && btext.bytes().all(|b| b == b' ');
+                        if blank_only && ea == eb && (pa.is_none() || pa == pb) {
+                            stats.hit("history_blank_line_not_recorded");
+                        } else if ea != want {
                             v.push(Viol::new(
                                 format!("{}/history-after-submit", p),
                                 format!("history {:?} + {:?} (hb {}): got {:?}, expected {:?}", eb, btext, self.cfg.hb, ea, want),
